@@ -126,6 +126,9 @@ func account(rep *vc.Report, cfg *vc.Config, i, k int, sc *Scenario, run *Scenar
 			rep.Inc("req_ok_" + r.Op.Kind)
 		} else {
 			rep.Inc("req_err_" + r.Res.Class)
+			if r.Res.Class == "other" || strings.HasPrefix(r.Res.Class, "http-") {
+				rep.Inc("other_error: " + firstLine(r.Res.Err))
+			}
 		}
 	}
 	rep.Add("open_requests", int64(open))
